@@ -75,6 +75,8 @@ Lemma td_abpc_enc_inj : forall x y p q, td_abpc_enc x p = td_abpc_enc y q -> x =
 Proof. td_enc_inj_tac. Qed.
 Lemma td_cnt_enc_inj : forall x y p q, td_cnt_enc x p = td_cnt_enc y q -> x = y /\ p = q.
 Proof. td_enc_inj_tac. Qed.
+Lemma td_dlpc_enc_inj : forall x y p q, td_dlpc_enc x p = td_dlpc_enc y q -> x = y /\ p = q.
+Proof. td_enc_inj_tac. Qed.
 
 Lemma td_enc_inj : forall s t, td_enc s = td_enc t -> s = t.
 Proof.
@@ -91,12 +93,12 @@ Proof.
   apply td_ccpc_enc_inj in H; destruct H as [E9 H].
   apply td_ccpc_enc_inj in H; destruct H as [E10 H].
   apply td_abpc_enc_inj in H; destruct H as [E11 H].
-  apply td_ast_enc_inj in H; destruct H as [E12 H].
-  apply td_err_enc_inj in H; destruct H as [E13 H].
+  apply td_dlpc_enc_inj in H; destruct H as [E12 H].
+  apply td_ast_enc_inj in H; destruct H as [E13 H].
   apply td_err_enc_inj in H; destruct H as [E14 H].
   apply td_err_enc_inj in H; destruct H as [E15 H].
-  apply td_cnt_enc_inj in H; destruct H as [E16 H].
-  apply td_bool_enc_inj in H; destruct H as [E17 H].
+  apply td_err_enc_inj in H; destruct H as [E16 H].
+  apply td_cnt_enc_inj in H; destruct H as [E17 H].
   apply td_bool_enc_inj in H; destruct H as [E18 H].
   apply td_bool_enc_inj in H; destruct H as [E19 H].
   apply td_bool_enc_inj in H; destruct H as [E20 H].
@@ -113,6 +115,8 @@ Proof.
   apply td_bool_enc_inj in H; destruct H as [E31 H].
   apply td_bool_enc_inj in H; destruct H as [E32 H].
   apply td_bool_enc_inj in H; destruct H as [E33 H].
+  apply td_bool_enc_inj in H; destruct H as [E34 H].
+  apply td_bool_enc_inj in H; destruct H as [E35 H].
   clear H. destruct s, t. simpl in *. subst. reflexivity.
 Qed.
 
